@@ -915,6 +915,11 @@ func (h *HostHash) Call(c *Ctx, m string, a []Value) Value {
 			}
 			return Slice{Elems: el}
 		}
+		if c.FS.SymHash != "" {
+			// stub: the digest of content with symbolic bytes is a fixed hex string (the harness states that the
+			// property under check does not depend on the digest's value)
+			return &HostHex{S: Conc(c.FS.SymHash)}
+		}
 		c.Unsupported("sha256 of symbolic content")
 	}
 	c.Unsupported("hash method %s", m)
@@ -934,6 +939,7 @@ type VFS struct {
 	Exe          string
 	Writes       []string
 	HashOverride func(c *Ctx, content string) (Str, bool)
+	SymHash      string // digest (64 hex digits) reported for content with symbolic bytes; "" = unsupported
 	WriteErr     bool
 }
 
